@@ -5,7 +5,7 @@ import GMGProofs.Lemmas.Concrete5
 # C10 (the whole cycle inside the model, continued): any depth, and the implicitly extrapolated cycle
 
 `C10c.concrete_exact_fixed` is the two-level plain cycle.  Here: hierarchies of ANY depth `L ≥ 2` (the intermediate levels
-smooth a zero correction with a zero right-hand side — `Cycle.ZeroData` discharged for the code-level models), and the
+smooth a zero correction with a zero right-hand side — `MGCycle.ZeroData` discharged for the code-level models), and the
 implicitly extrapolated cycle (`C10.exact_fixed_extrap` instantiated), whose fixed-point statement needs the iterate to be
 exact on levels 0 AND 1 (that is what `ExExactData.rhs_zero` says — the extrapolated right-hand side combines both residuals).
 With the extrapolated smoother on level 0 the proof composes `C07c.code_exsweep_isExSweep`, `C07c.code_exsweep_total`,
@@ -14,7 +14,7 @@ boundary and elliptic data, and the equations of the extrapolated sweep have at 
 Property theorems only; helper lemmas in `GMGProofs/Lemmas/Concrete*.lean`.
 -/
 namespace C10d
-open Cycle Concrete Stencil
+open MGCycle Concrete Stencil
 
 section Ordered
 variable {K : Type} [_root_.Field K] [LinearOrder K] [IsStrictOrderedRing K]
